@@ -42,6 +42,9 @@ func (o *Options) EnsureDefaults() *Options {
 	if o == nil {
 		o = &Options{}
 	}
+	if verifEnabled {
+		o.verifOverride()
+	}
 	if o.MaxLogFileSize == 0 {
 		o.MaxLogFileSize = MaxLogFileSize
 	}
